@@ -10,6 +10,8 @@
 //! damaged guard aborts the process with a `GUARD-ALLOC:` line; `bin/c06.py` then locates the
 //! case through the per-shard trace files, exactly as for a sanitizer abort.
 //!
+//! Fresh blocks are filled with 0xAA (`alloc_zeroed` still zeroes), so that uninitialised memory is recognisable.
+//!
 //! Limits: only writes landing within `GUARD` bytes of a heap block are seen (a contiguous overrun
 //! always touches the guard first); out-of-bounds reads are the ASan build's business.
 
@@ -18,6 +20,7 @@ use std::sync::atomic::{AtomicU64, Ordering};
 
 pub const GUARD: usize = 2048;
 const PATTERN: u8 = 0xA5;
+const POISON: u8 = 0xAA;
 
 pub struct GuardAlloc;
 
@@ -76,6 +79,8 @@ unsafe impl GlobalAlloc for GuardAlloc {
         }
         std::ptr::write_bytes(base, PATTERN, GUARD);
         std::ptr::write_bytes(base.add(GUARD + layout.size()), PATTERN, GUARD);
+        // fresh blocks are poisoned: memory the program reads without having written it is not zero by luck
+        std::ptr::write_bytes(base.add(GUARD), POISON, layout.size());
         BLOCKS.fetch_add(1, Ordering::Relaxed);
         base.add(GUARD)
     }
